@@ -12,9 +12,15 @@ CLAIMED = {
  "C02": ("proptest-generated recipes executed by a three-party executor model (per-party values, values cross only at Send nodes); oracle = plaintext value at every listed output party / share consistency",
          "Random search with shrinking over the same recipes/configurations as C01, executed by three separate simulated parties: own inputs + generated junk for everything not owned, three independent random tapes, values replaced only at Send(s,r) nodes. Oracle: each listed output party holds exactly the plaintext value; for a shared output the replicated slots agree between neighbours and reconstruct the value; repeated with different junk and tapes.",
          "Trusted: the execution model of reference/runtime.md as implemented in walk.rs::run3 (the proprietary runtime is unavailable); plaintext SimpleEvaluator as reference."),
+ "C03": ("three-party executor with idealised random oracle; exhaustive enumeration of all relevant oracle assignments for generated bit-typed graphs (exact view histograms), sampled two-sample chi-square tests for 8-bit graphs",
+         "Generated bit-typed source graphs x owner/output configurations x each observer: every random-oracle assignment that can influence the observer's messages or output is enumerated for every input assignment, and the exact histogram of the observer's view (messages received, output, own relevant mask values) must be identical across all other-party inputs of a group (same observer inputs and output) - an exact decision for that graph/configuration/observer under the idealisation the property prescribes. For 8-bit arithmetic sources (OT, conversions, truncation, permutation, sort) the comparison is statistical (byte marginals, pairwise byte differences/xors, view hash; per-test p<1e-18) plus an exact unmasked-byte check.",
+         "Trusted: idealisation of PRF/PRNG (keys opaque, masks independent uniform); syntactic taint over-approximates dependence, so requests outside the taint set factor out exactly; execution model of runtime.md. Wider scalar types and big graphs are sampled only."),
  "C04": ("proptest-generated recipes; structural invariants over compiler output and over the optimiser's old-to-new node mapping (no evaluation)",
          "Random search with shrinking. (i/iii) MPC recipes compiled stage by stage (prepare_context, prepare_for_mpc_evaluation, optimize_context) in all inline modes: PRF counters are pairwise distinct and non-zero before and after the final optimiser; (ii) generated inlined graphs containing Random/RandomPermutation/PRF/PermutationFromPRF nodes with colliding counters, duplicated nodes, constants and dangling parts: under optimize_context's mapping no randomising/PRF node becomes a Constant, two are never merged, none is duplicated or invented, each surviving user still depends on the image of its randomising dependency (a node is dropped only when no surviving node depends on it).",
          "Trusted: the mapping returned by optimize_context is what the pass actually did (its value-consistency is C06's subject). PRF nodes keyed by a Constant are outside the domain."),
+ "C15": ("proptest-generated PRF/PRNG call schedules across evaluator instances; exact twin-generator differential for bounded draws; chi-square uniformity tests",
+         "Random search with shrinking over PRF / PermutationFromPRF graphs with harness-chosen keys (equal, one-bit-flipped), counters, output types crossing every buffer boundary, evaluated node-by-node in several evaluator instances, orders, repeats and interleavings: purity, separation, validity (check_type, no stray bits, true permutations), seed replay; bounded draws compared exactly (values and bytes consumed) with a reference rejection sampler on a twin PRNG for all small moduli and boundary moduli; chi-square uniformity for bounded draws and permutations (false-alarm < e^-36 per test).",
+         "Trusted: AES as PRF core (cryptographic quality assumed); reference rejection sampler in the harness. Modulo bias below 2^-8 relative inside PermutationFromPRF is statistically out of reach."),
  "C13": ("proptest generated integers/values vs reference byte encoder and structural layout predicate; JSON round-trip oracle",
          "Random search with shrinking over (scalar type x source integer type x boundary-heavy integers x ragged bit arrays x nested container types): read-back == integers mod 2^w with sign extension, bytes == the harness's own little-endian/LSB-first encoder, check_type <=> independent layout predicate (matching and near-miss layouts), JSON text parses back to an equal typed value. Sampling, not proof.",
          "Trusted: the harness's reference encoder/decoder (hv.rs) and layout predicate; serde_json itself. Two JSON format limitations are recorded as known findings and excluded by signature."),
